@@ -68,6 +68,10 @@ StatesBasis == {<<V2(0, 0), V2(0, 0), V2(0, 0)>>,
 EquilState(mt, su, sv) == <<su, sv, Solve2(mt.m, VSub2(O2, MatVec2(mt.k, su)))>>
 StatesFree == {EquilState(mt, su, sv) : mt \in MatsFree, su \in {V2(1, 0), V2(1, -1)}, sv \in {V2(0, 0), V2(2, 1)}}
               \cup {<<V2(1, -1), V2(2, 1), V2(-1, 2)>>}
+NoRefusals == {}
+(* inadmissible records: alpha beyond 1/3 for hht_newmark, alpha = 1 for hht, a zero or negative step *)
+BadPrmsSwitch == {P("hht_newmark", One, Half, Q14, Half), P("hht", One, One, Q14, Half), P("midpoint", RI(-1), Half, Q14, Half),
+                  P("euler_implicit", Zero, Zero, Q14, Half), P("parabolic", Zero, Half, Q14, Half)}
 StatesOne == {<<V2(1, -1), V2(2, 1), V2(-1, 2)>>}
 StatesSwitch == {<<V2(1, 0), V2(0, 1), V2(0, 0)>>, <<V2(1, -1), V2(2, 1), V2(-1, 2)>>}
 
